@@ -355,3 +355,32 @@ func replay(raw stdjson.RawMessage) (bool, string) {
 	o := evalCase(cs)
 	return o.Direction() != "", fmt.Sprintf("%s: Check=%s Validate=%s reference=%s", cs.Describe(), o.Check, o.Val, o.Ref)
 }
+
+// ForEachAnnotatedScalar yields every (scalar example with a rule set of <= k
+// names from the kind's applicable pool) whose example the reference accepts:
+// the mostly well-formed combinations C08's accept side needs.
+func ForEachAnnotatedScalar(k int, f func(root *gen.Node)) {
+	type kindSpec struct {
+		kind     gen.Kind
+		pool     []variant
+		examples []string
+	}
+	specs := []kindSpec{
+		{gen.KInt, numericPool(false, false), intExamples},
+		{gen.KFloat, numericPool(true, false), floatExamples},
+		{gen.KStr, stringPool(), strExamples},
+		{gen.KBool, boolNullPool(), []string{"true", "false"}},
+		{gen.KNull, boolNullPool(), []string{"null"}},
+	}
+	env := &refv.Env{}
+	for _, sp := range specs {
+		ruleSets(sp.pool, k, func(rules []gen.Rule) {
+			for _, ex := range sp.examples {
+				root := &gen.Node{Kind: sp.kind, Lit: ex, Rules: rules}
+				if refv.Accepts(env, root, &gen.JV{Kind: sp.kind, Lit: ex}) == refv.Accept {
+					f(root)
+				}
+			}
+		})
+	}
+}
